@@ -4,6 +4,7 @@ import (
 	"go/ast"
 	"go/token"
 	"os"
+	"path/filepath"
 	"strings"
 )
 
@@ -13,7 +14,54 @@ import (
 // stated, and AC/Props/C18.lean restates the builder and analysis theorems over the generated ones.
 
 // C02 rests on the same generated file (Chain.Ops, Chain.IsAscending: AC/ChainTie.lean).
-func init() { register(extractC18, "C18", "C02", "C19", "C10", "C08", "C11", "C09") }
+// c18Relevant: the source files whose translated functions each property rests on. A change in another
+// file's functions does not concern the property: their blocks are taken over from the existing
+// generated file, so that it neither shows as a difference of the generated table nor as a failed
+// translation in that property's check.
+var c18Relevant = map[string][]string{
+	"C18": {"program.go", "chain.go", "internal/bigints/bigints.go"},
+	"C02": {"chain.go", "program.go", "internal/bigints/bigints.go"},
+	"C19": {"internal/bigints/bigints.go", "internal/bigint/bigint.go"},
+	"C10": {"alg/opt/opt.go", "chain.go", "program.go", "internal/bigints/bigints.go"},
+	"C08": {"alg/heuristic/heuristic.go", "alg/contfrac/contfrac.go", "internal/bigints/bigints.go"},
+	"C11": {"alg/dict/runs.go", "chain.go", "program.go", "internal/bigints/bigints.go"},
+	"C09": {"alg/dict/dict.go"},
+}
+
+func init() {
+	for pid := range c18Relevant {
+		pid := pid
+		register(func(c *Ctx) { extractC18(c, pid) }, pid)
+	}
+}
+
+// c18OldBlocks reads the blocks (`-- BEGIN key` .. `-- END key`) of the existing generated file.
+func c18OldBlocks(c *Ctx) map[string]string {
+	out := map[string]string{}
+	b, err := os.ReadFile(filepath.Join(c.Verif, "lean", "AC", "Gen", "ProgramFns.lean"))
+	if err != nil {
+		return out
+	}
+	text := string(b)
+	for {
+		i := strings.Index(text, "-- BEGIN ")
+		if i < 0 {
+			return out
+		}
+		text = text[i+len("-- BEGIN "):]
+		nl := strings.Index(text, "\n")
+		if nl < 0 {
+			return out
+		}
+		key := text[:nl]
+		end := strings.Index(text, "-- END "+key+"\n")
+		if end < 0 {
+			return out
+		}
+		out[key] = text[nl+1 : end]
+		text = text[end:]
+	}
+}
 
 // translated in this order (a function is emitted after the functions it calls)
 var c18Targets = []struct{ file, key string }{
@@ -40,9 +88,15 @@ var c18Targets = []struct{ file, key string }{
 	{"alg/contfrac/contfrac.go", "contfrac.TotalStrategy.K"}, {"alg/contfrac/contfrac.go", "contfrac.SqrtStrategy.K"},
 }
 
-func extractC18(c *Ctx) {
+func extractC18(c *Ctx, pid string) {
 	var out strings.Builder
-	t := &gotr{funcs: map[string]*gtFunc{}, out: &out}
+	var blk strings.Builder
+	t := &gotr{funcs: map[string]*gtFunc{}, out: &blk}
+	relevant := map[string]bool{}
+	for _, f := range c18Relevant[pid] {
+		relevant[f] = true
+	}
+	old := c18OldBlocks(c)
 	decls := map[string]*ast.FuncDecl{}
 	fsets := map[string]*token.FileSet{}
 	for _, file := range []string{"program.go", "chain.go", "internal/bigints/bigints.go", "internal/bigint/bigint.go", "alg/opt/opt.go", "alg/heuristic/heuristic.go", "alg/contfrac/contfrac.go", "alg/dict/runs.go", "alg/dict/dict.go"} {
@@ -102,19 +156,34 @@ func extractC18(c *Ctx) {
 	}
 	out.WriteString("import AC.GoPrim\nimport AC.Gen.BigintFns\n/-! GENERATED by harness/cmd/extract (gotr.go, c18.go) from program.go and chain.go of the working tree — do not edit.\n    Each definition is the translation of the Go function or method named in its doc comment; `none` = the Go code panics. -/\nset_option linter.unusedVariables false\nnamespace AC.Gen.Program\nopen AC.GoPrim AC.BigPrim\n\n")
 	for _, tg := range c18Targets {
+		blk.Reset()
 		fd, ok := decls[tg.key]
+		failed := ""
 		if !ok {
-			c.Check("translate "+tg.key, false, "function not found")
-			continue
+			failed = "function not found"
+		} else {
+			t.fset = fsets[tg.key]
+			t.err = nil
+			t.function(tg.key, fd)
+			if t.err != nil {
+				failed = "outside the translated fragment: " + t.err.Error()
+			}
 		}
-		t.fset = fsets[tg.key]
-		t.err = nil
-		t.function(tg.key, fd)
-		if t.err != nil {
-			c.Check("translate "+tg.key, false, "outside the translated fragment: "+t.err.Error())
+		body := blk.String()
+		if !relevant[tg.file] {
+			// another property's function: keep the block the theorems were checked over
+			if ob, have := old[tg.key]; have {
+				body = ob
+			} else if failed != "" {
+				body = ""
+			}
+		} else if failed != "" {
+			c.Check("translate "+tg.key, false, failed)
 			continue
+		} else {
+			c.Check("translate "+tg.key, true, "")
 		}
-		c.Check("translate "+tg.key, true, "")
+		out.WriteString("-- BEGIN " + tg.key + "\n" + body + "-- END " + tg.key + "\n\n")
 	}
 	out.WriteString("end AC.Gen.Program\n")
 	if os.Getenv("VERIF_GOTR_DEBUG") != "" {
